@@ -1,14 +1,151 @@
+//! kmc — model-checking harness for kanal (see /verif/DESIGN.md).
+
+mod exec;
+mod gen;
+mod hist;
+mod model;
+mod oracle;
+mod payload;
+mod prog;
+mod runner;
+
+use std::io::Write;
+
+/// Global allocator hook: freed heap memory loses its tracking state.
+struct TrackingAlloc;
+unsafe impl std::alloc::GlobalAlloc for TrackingAlloc {
+    unsafe fn alloc(&self, l: std::alloc::Layout) -> *mut u8 {
+        std::alloc::System.alloc(l)
+    }
+    unsafe fn dealloc(&self, p: *mut u8, l: std::alloc::Layout) {
+        kanal_verif_rt::track::forget_range(p as usize, l.size());
+        std::alloc::System.dealloc(p, l)
+    }
+    unsafe fn realloc(&self, p: *mut u8, l: std::alloc::Layout, n: usize) -> *mut u8 {
+        kanal_verif_rt::track::forget_range(p as usize, l.size());
+        std::alloc::System.realloc(p, l, n)
+    }
+}
+#[global_allocator]
+static GLOBAL: TrackingAlloc = TrackingAlloc;
+
+fn build_name() -> &'static str {
+    if cfg!(feature = "seam") {
+        "seam"
+    } else {
+        "default"
+    }
+}
+
+fn mine(p: &prog::Program, par: u8) -> bool {
+    p.needs_seam() == cfg!(feature = "seam") && p.env.par == par
+}
+
+fn set_env(p: &prog::Program) {
+    let mut k = kanal_verif_rt::ctl::knobs();
+    k.spin_budget = p.env.spin as u32;
+    k.parallelism = p.env.par as usize;
+    k.spurious_park = p.env.spurious_park.map(|x| x as u32);
+    kanal_verif_rt::ctl::set_knobs(k);
+}
+
+fn arg(args: &[String], name: &str) -> Option<String> {
+    args.iter().position(|a| a == name).and_then(|i| args.get(i + 1).cloned())
+}
+
 fn main() {
-    loom::model(|| {
-        kanal_verif_rt::ctl::begin_execution();
-        let (s, r) = kanal::bounded::<[usize; 3]>(0);
-        let _ = s.capacity();
-        let t = loom::thread::spawn(move || {
-            s.send([1, 2, 3]).unwrap();
-        });
-        assert_eq!(r.recv().unwrap(), [1, 2, 3]);
-        t.join().unwrap();
-        kanal_verif_rt::ctl::end_execution();
-    });
-    println!("ok {:?}", kanal_verif_rt::ctl::take_totals());
+    let args: Vec<String> = std::env::args().collect();
+    let cmd = args.get(1).map(|s| s.as_str()).unwrap_or("");
+    runner::install_panic_hook();
+    match cmd {
+        "list" => {
+            let s = gen::suite(&args[2], args[3] == "thorough");
+            let mut counts = std::collections::BTreeMap::new();
+            for p in &s.programs {
+                *counts
+                    .entry((if p.needs_seam() { "seam" } else { "default" }, p.env.par))
+                    .or_insert(0u64) += 1;
+            }
+            let v: Vec<_> = counts
+                .iter()
+                .map(|((b, par), n)| serde_json::json!({"build": b, "par": par, "programs": n}))
+                .collect();
+            println!(
+                "{}",
+                serde_json::json!({"total": s.programs.len(), "groups": v, "rule": s.rule, "cfg": s.cfg})
+            );
+        }
+        "run" => {
+            let s = gen::suite(&args[2], args[3] == "thorough");
+            let par: u8 = arg(&args, "--par").unwrap().parse().unwrap();
+            let shard = arg(&args, "--shard").unwrap();
+            let (i, n) = shard.split_once('/').unwrap();
+            let (i, n): (usize, usize) = (i.parse().unwrap(), n.parse().unwrap());
+            let from: usize = arg(&args, "--from").map(|x| x.parse().unwrap()).unwrap_or(0);
+            let out = arg(&args, "--out").unwrap();
+            let mut f = std::fs::OpenOptions::new().create(true).append(true).open(&out).unwrap();
+            // a shim monitor reports through this callback before it panics
+            {
+                let out2 = out.clone();
+                kanal_verif_rt::ctl::on_violation(Box::new(move |m| {
+                    if let Ok(mut f) = std::fs::OpenOptions::new().append(true).open(&out2) {
+                        let _ = writeln!(f, "{}", serde_json::json!({"shim_violation": m}));
+                    }
+                }));
+            }
+            let mut k = 0usize;
+            for (idx, p) in s.programs.iter().enumerate() {
+                if !mine(p, par) {
+                    continue;
+                }
+                let slot = k;
+                k += 1;
+                if slot % n != i || idx < from {
+                    continue;
+                }
+                writeln!(f, "{}", serde_json::json!({"start": idx, "name": p.name})).unwrap();
+                f.flush().unwrap();
+                set_env(p);
+                *runner::PANIC_SINK.lock().unwrap() = Some((out.clone(), idx));
+                let mut rec = runner::run_program(idx, p, &s.cfg, build_name());
+                *runner::PANIC_SINK.lock().unwrap() = None;
+                if rec.violation.is_some() || rec.foreign.is_some() || rec.cap_hit.is_some() {
+                    rec.program = Some(p.clone());
+                } else if idx % 97 != 0 {
+                    rec.sample = None;
+                }
+                if rec.sample.is_some() {
+                    rec.program = Some(p.clone());
+                }
+                writeln!(f, "{}", serde_json::to_string(&rec).unwrap()).unwrap();
+                f.flush().unwrap();
+            }
+            writeln!(f, "{}", serde_json::json!({"shard_done": shard})).unwrap();
+        }
+        "one" => {
+            // run one program given as JSON (file) with a suite's cfg
+            let s = gen::suite(&args[2], args[3] == "thorough");
+            let p: prog::Program = if let Ok(idx) = args[4].parse::<usize>() {
+                s.programs[idx].clone()
+            } else {
+                let txt = std::fs::read_to_string(&args[4]).unwrap();
+                let v: serde_json::Value = serde_json::from_str(&txt).unwrap();
+                serde_json::from_value(v.get("program").cloned().unwrap_or(v)).unwrap()
+            };
+            if p.needs_seam() != cfg!(feature = "seam") {
+                eprintln!("program needs the {} build", if p.needs_seam() { "seam" } else { "default" });
+                std::process::exit(3);
+            }
+            set_env(&p);
+            let rec = runner::run_program(0, &p, &s.cfg, build_name());
+            println!("{}", serde_json::to_string_pretty(&rec).unwrap());
+            if rec.violation.is_some() {
+                std::process::exit(1);
+            }
+        }
+        _ => {
+            eprintln!("usage: kmc list|run|one ...");
+            std::process::exit(2);
+        }
+    }
 }
